@@ -741,6 +741,7 @@ def run_C18(ctx):
     kw["view"] = None
     ctx.tlc_phase("virtual-simulate", "Virtual", vc, invariants=["LazyUntilNeeded", "KeepGeneratesOnce", "NoStale", "HeldOnlyIfKeep"],
                   simulate="num=%d" % (5000 if q else 200000), depth=12, **kw)
+    ctx.virtual_trace_phase("virtual-sessions-code-to-spec", 3000 if q else 60000)
     pc = dict(PartN=str(3 if q else 4), PartMax="3", MaxSteps=str(2 if q else 3), EmitOn="TRUE")
     ctx.tlc_phase("partitions-all-splittings", "Partition", pc, invariants=["LocateInRange", "Tiling"], init="PInit", next_="PNext",
                   view="PView", action_constraints=["PEmit"], translate=("virtual", "steps_partition"),
